@@ -62,6 +62,9 @@ def run_batches(ctx, cases, on_case, batch=1500):
             ctx.count("stage:" + str(a.stage))
             if getattr(a, "skipped", None):
                 ctx.count("skipped:" + a.skipped)
+            sc = getattr(a, "spec_scope", None)
+            if sc is not None:
+                ctx.count("oracle-in-theorem-scope" if sc.get("fin") == "1" and sc.get("nea") == "1" else "oracle-outside-theorem-scope")
             if a.nstates >= 3:
                 ctx.nontriv(a.text + a.shell)
             for kind, detail in a.issues:
